@@ -9,7 +9,7 @@ theorem whole_parse_shape (ls : List Bytes) (m : Module) (h : parse ls = some m)
       (mergeTypedefs [] t.lines).bind Core2.translateTok = some c2 ∧
       Meta.readLines t.md = some raws ∧ Meta.translate raws = .ok m.md ∧
       m.globals = c2.globals ∧
-      Core2.hasDup (c2.globals.map (·.name) ++ m.funcs.map (·.name)) = false := by
+      Core2.hasDup (c2.globals.map (·.name) ++ m.funcs.map (·.name)) = false ∧ gleadsOK c2.globals = true := by
   unfold parse at h
   cases hr : readTop (ls.length + 1) ls with
   | none => simp [hr] at h
@@ -35,17 +35,29 @@ theorem whole_parse_shape (ls : List Bytes) (m : Module) (h : parse ls = some m)
             · cases h
             · rename_i hd
               split at h
-              · injection h with h
-                subst h
-                exact ⟨t, c2, raws, rfl, hc, hm, ht, rfl, by simpa using hd⟩
               · cases h
+              · rename_i hgl
+                split at h
+                · injection h with h
+                  subst h
+                  exact ⟨t, c2, raws, rfl, hc, hm, ht, rfl, by simpa using hd, by simpa using hgl⟩
+                · cases h
 
 /-- **no name is defined twice**: in every accepted module the global variables and the functions (definitions and declarations) have pairwise
     different names — a text that defines a global or a function twice, or a function named like a global variable, is rejected -/
 theorem whole_global_names_unique (ls : List Bytes) (m : Module) (h : parse ls = some m) :
     (m.globals.map (·.name) ++ m.funcs.map (·.name)).Nodup := by
-  obtain ⟨_, c2, _, _, _, _, _, hg, hd⟩ := whole_parse_shape ls m h
+  obtain ⟨_, c2, _, _, _, _, _, hg, hd, _⟩ := whole_parse_shape ls m h
   rw [hg]
   exact (Core2.hasDup_false_iff_nodup _).mp hd
+
+/-- **the keywords of a global variable are checked**: in every accepted module every global variable carries at most one keyword of each family (linkage,
+    preemption, visibility, DLL storage class, thread-local model, unnamed_addr, externally_initialized), the families in the order of the grammar — a text
+    with a repeated or misplaced keyword is rejected, none is silently dropped or reordered -/
+theorem whole_global_keywords_checked (ls : List Bytes) (m : Module) (h : parse ls = some m) : gleadsOK m.globals = true := by
+  obtain ⟨_, c2, _, _, _, _, _, hg, _, hgl⟩ := whole_parse_shape ls m h
+  rw [hg]; exact hgl
+
+example : gleadOK [3, 3] = false ∧ gleadOK [9, 3] = false ∧ gleadOK [16, 17] = false ∧ gleadOK [3, 9, 12, 14, 17, 20, 22] = true ∧ gleadOK [23] = false := by decide
 
 end Llir.Props.C05
